@@ -12,13 +12,17 @@ use super::context::print_preset_info;
 #[must_use]
 pub fn run_config(args: &crate::cli::ConfigArgs, cli: &Cli) -> i32 {
     match &args.action {
-        ConfigAction::Validate { config } => run_config_validate(config, cli.no_extends),
+        ConfigAction::Validate { config } => run_config_validate(
+            config,
+            cli.no_extends,
+            FetchPolicy::from_cli(cli.extends_policy),
+        ),
         ConfigAction::Show { config, format } => run_config_show(config.as_deref(), *format, cli),
     }
 }
 
-fn run_config_validate(config_path: &Path, no_extends: bool) -> i32 {
-    match validate_config_file(config_path, no_extends) {
+fn run_config_validate(config_path: &Path, no_extends: bool, extends_policy: FetchPolicy) -> i32 {
+    match validate_config_file(config_path, no_extends, extends_policy) {
         Ok(()) => {
             println!("Configuration is valid: {}", config_path.display());
             EXIT_SUCCESS
@@ -46,10 +50,14 @@ fn run_config_validate(config_path: &Path, no_extends: bool) -> i32 {
 /// extends resolution fails, or has semantic errors.
 #[cfg(test)]
 pub(crate) fn run_config_validate_impl(config_path: &Path) -> Result<()> {
-    validate_config_file(config_path, false)
+    validate_config_file(config_path, false, FetchPolicy::Normal)
 }
 
-fn validate_config_file(config_path: &Path, no_extends: bool) -> Result<()> {
+fn validate_config_file(
+    config_path: &Path,
+    no_extends: bool,
+    extends_policy: FetchPolicy,
+) -> Result<()> {
     if !config_path.exists() {
         return Err(SlocGuardError::Config(format!(
             "Configuration file not found: {}",
@@ -64,7 +72,9 @@ fn validate_config_file(config_path: &Path, no_extends: bool) -> Result<()> {
     let _: toml::Value = toml::from_str(&content)?;
 
     // Phase 2: Full load with extends chain and semantic validation
-    super::context::load_config(Some(config_path), false, no_extends, FetchPolicy::Normal)?;
+    // with the policy the user asked for: `--extends-policy offline` must not reach the network
+    // here either, and `refresh` must not be answered from the cache
+    super::context::load_config(Some(config_path), false, no_extends, extends_policy)?;
 
     Ok(())
 }
